@@ -96,11 +96,35 @@ def execute(scn, devs, bindir, scratch, expect=None):
                     out[nm] = 0
             out["initial_tokens"] = js["n"] - 1
             jsres = out
+        # observations of the scheduled run itself, taken before any follow-up command
+        main_trace = proj.read_trace()
+        main_files = {n: c for n, (c, _i) in proj.snapshot().items()}
+        dbobs = {"dbkey": None, "integrity": None, "dbrows": None, "runids": None}
+        try:
+            dbobs["dbkey"] = canon.db_key_norun(proj.p)
+            db = proj.p / ".redo" / "db.sqlite3"
+            if db.exists():
+                con = sqlite3.connect(str(db), timeout=5)
+                dbobs["integrity"] = con.execute("pragma integrity_check").fetchall()
+                dbobs["dbrows"] = con.execute("select name, is_generated, failed_runid is not null and failed_runid != 0, rowid from Files").fetchall()
+                dbobs["runids"] = con.execute("select id from Runid").fetchall()
+                con.close()
+        except Exception as ex:   # noqa
+            dbobs["integrity"] = [("error", str(ex))]
         post = []
         for cmd in scn.get("post_cmds", []):
             rc_, out_, err_ = proj.redo(list(cmd))
             post.append({"argv": list(cmd), "rc": rc_, "out": out_, "err": err_})
+        post_files = None
+        if scn.get("post_ops"):
+            proj.env.pop("REDO_VERIF_SOCK", None)
+            pres = []
+            for op in scn["post_ops"]:
+                o = proj.op(list(op))
+                pres.append({"op": list(op), "rc": o.get("rc"), "ran": executed(o.get("trace", []))})
+            post_files = {"steps": pres, "files": {n: c for n, (c, _i) in proj.snapshot().items()}}
         res = {
+            "post_ops": post_files,
             "post": post,
             "jobserver": jsres,
             "verdict": verdict, "error": err, "divergence": divergence,
@@ -108,24 +132,13 @@ def execute(scn, devs, bindir, scratch, expect=None):
             "roots": {r["name"]: r["rc"] for r in sch.roots},
             "stderr": {r["name"]: _read(root / ("err.%s" % r["name"])) for r in sch.roots},
             "stdout": {r["name"]: _read(root / ("out.%s" % r["name"])) for r in sch.roots},
-            "trace": proj.read_trace(),
-            "files": {n: c for n, (c, _i) in proj.snapshot().items()},
-            "dbkey": None, "integrity": None, "dbrows": None,
+            "trace": main_trace,
+            "files": main_files,
             "n_states": len(sch.state_hashes), "state_hashes": list(sch.state_hashes)[:20000],
             "auto_released": sch.auto_released, "wall": time.time() - t0,
             "lids": {p.lid: p.argv for p in sch.procs.values() if p.argv},
         }
-        try:
-            res["dbkey"] = canon.db_key_norun(proj.p)
-            db = proj.p / ".redo" / "db.sqlite3"
-            if db.exists():
-                con = sqlite3.connect(str(db), timeout=5)
-                res["integrity"] = con.execute("pragma integrity_check").fetchall()
-                res["dbrows"] = con.execute("select name, is_generated, failed_runid is not null and failed_runid != 0, rowid from Files").fetchall()
-                res["runids"] = con.execute("select id from Runid").fetchall()
-                con.close()
-        except Exception as ex:   # noqa
-            res["integrity"] = [("error", str(ex))]
+        res.update(dbobs)
         return res
     finally:
         shutil.rmtree(root, ignore_errors=True)
